@@ -34,7 +34,9 @@ type WireCase struct {
 }
 
 var pathStrings = []string{"abc", "a b", "x&y=z", "50%", "q?r#s", "é☃", "+plus+", "a;b,c", "~tilde", "0", "-", "..x", "colon:semi", "@at", "$d", "(p)", "*star", "'q'", "%2F", "a%20b", ".", "..", "...", ".hidden"}
-var headerStrings = []string{"abc", "a b", "with;semi=colon", "comma,separated", "\"quoted\"", "tab-free value", "x", "0", "UPPER lower", "key=value; other=1", "~!@#$%^&*()_+"}
+var headerStrings = []string{"abc", "a b", "with;semi=colon", "comma,separated", "\"quoted\"", "tab-free value", "x", "0", "UPPER lower", "key=value; other=1", "~!@#$%^&*()_+",
+	// values in the syntax of other layers, which are just text here: MIME encoded-words, percent-escapes, a quoted-printable tail
+	"=?utf-8?q?caf=C3=A9?= (raw subject)", "=?UTF-8?B?0J/RgNC40LLQtdGC?=", "=?utf-8?q?a?= =?utf-8?q?b?=", "100%25 a%20b", "W/\"etag\"", "a=3D=20"}
 var queryStrings = []string{"", "abc", "a b", "a&b=c", "50%", "q?r#s", "é☃\U0001F600", "+plus+", "a;b", "new\nline", "\"quoted\"", "a/b/c", "%2F", "a,b", "Doe, John", ","}
 
 // fixDomain brings a random Params value into the domain of C09 (DESIGN §11): path values non-empty,
